@@ -15,6 +15,7 @@ package jobconfigcontroller
 
 // exactly the items satisfying the filter, each once, and the input list is left as it was
 //@ func FilterJobs
+//@   locals filtered: []*github.com/furiko-io/furiko/apis/execution/v1alpha1.Job
 //@   params items, filterFunc
 //@   tags C15
 //@   requires distinctJobs(items)
@@ -35,6 +36,7 @@ package jobconfigcontroller
 
 // one reference per Job and one Job per reference
 //@ func ToJobReferences
+//@   locals refs: []github.com/furiko-io/furiko/apis/execution/v1alpha1.JobReference
 //@   params items
 //@   tags C15
 //@   requires forall i int :: 0 <= i && i < len(items) ==> items[i] != nil
